@@ -187,6 +187,20 @@ func (g *gen) target(fr map[string]interface{}, ev vh.Event) {
 			return
 		}
 		want, _ := massutil.GetMassDBBindingTarget(pk, size)
+		// the same key listed with another size in between, then again with this size (a listing must not depend on
+		// what was listed before)
+		other := 24 + 2*((size/2+3)%9)
+		if wo, err := api.VerifWorkSpace(engine.WorkSpaceInfo{SpaceID: sid, PublicKey: pk, Ordinal: 3, BitLength: other, State: engine.Ready}); err == nil {
+			wantO, _ := massutil.GetMassDBBindingTarget(pk, other)
+			if wo.BindingTarget != wantO {
+				ev["err"] = fmt.Sprintf("same key listed with size %d after size %d: target %s, chain library %s", other, size, wo.BindingTarget, wantO)
+				ev["target"], ev["want"] = wo.BindingTarget, wantO
+				return
+			}
+		}
+		if w2, err := api.VerifWorkSpace(engine.WorkSpaceInfo{SpaceID: sid, PublicKey: pk, Ordinal: 3, BitLength: size, State: engine.Ready, Progress: 100}); err == nil {
+			ws = w2
+		}
 		_, addr, _ := keystore.NewPoCAddress(pk, config.ChainParams)
 		lib, _ := massutil.NewAddressPubKeyHash(massutil.Hash160(pk.SerializeCompressed()), config.ChainParams)
 		ev["target"], ev["want"] = ws.BindingTarget, want
@@ -201,6 +215,17 @@ func (g *gen) target(fr map[string]interface{}, ev vh.Event) {
 			return
 		}
 		want, _ := massutil.GetChiaPlotBindingTarget(plot, size)
+		other := 32 + (size+1)%4
+		if wo, err := api.VerifWorkSpaceV2(engine_v2.WorkSpaceInfo{SpaceID: plot.String(), PlotID: plot, PublicKey: g.g1, BitLength: other}); err == nil {
+			wantO, _ := massutil.GetChiaPlotBindingTarget(plot, other)
+			if wo.BindingTarget != wantO {
+				ev["err"] = fmt.Sprintf("same plot listed with k %d after k %d: target %s, chain library %s", other, size, wo.BindingTarget, wantO)
+				return
+			}
+		}
+		if w2, err := api.VerifWorkSpaceV2(engine_v2.WorkSpaceInfo{SpaceID: plot.String(), PlotID: plot, PublicKey: g.g1, BitLength: size}); err == nil {
+			ws = w2
+		}
 		ev["target"], ev["want"] = ws.BindingTarget, want
 		ev["targetok"] = ws.BindingTarget == want && want != ""
 		ev["addrok"] = true
